@@ -137,13 +137,14 @@ class CFG:
             n = self._new("break", st)
             self._connect(preds, n)
             if frame.brk is None:
-                raise AnalysisError("break outside loop")
+                self._edge(n, frame.ret(), "break")  # synthetic body of one loop iteration: leaves the iteration
+                return []
             self._edge(n, frame.brk(), "break")
             return []
         if isinstance(st, ast.Continue):
             n = self._new("continue", st)
             self._connect(preds, n)
-            self._edge(n, frame.cont(), "continue")
+            self._edge(n, frame.cont() if frame.cont is not None else frame.ret(), "continue")
             return []
         if isinstance(st, ast.If):
             t = self._new("test", st)
